@@ -64,6 +64,11 @@ def run(ctx):
             continue
         exp = {s["id"]: sorted(s["leases"]) for s in c["expect"]["survivors"]}
         real = {s["id"]: s["leases"] for s in o["survivors"]}
+        # shares whose leases carry one cancel secret: anything between the Spec's `valid` and `leases` is right
+        shared = {s["id"] for s in c["shares"] if s.get("sec") == "shared"}
+        for s_ in c["expect"]["survivors"]:
+            if s_["id"] in shared and s_["id"] in real and set(s_["valid"]) <= set(real[s_["id"]]) <= set(s_["leases"]):
+                exp[s_["id"]] = sorted(real[s_["id"]])
         th = c["threshold"]
         for s in c["shares"]:
             both = any(x < th for x in s["leases"]) and any(x >= th for x in s["leases"])
@@ -102,6 +107,9 @@ def run(ctx):
         else:
             exp2 = {s["id"]: sorted(s["leases"]) for s in c["expect2"]["survivors"]}
             real2 = {s["id"]: s["leases"] for s in o2["survivors"]}
+            for s_ in c["expect2"]["survivors"]:
+                if s_["id"] in shared and s_["id"] in real2 and set(s_["valid"]) <= set(real2[s_["id"]]) <= set(s_["leases"]):
+                    exp2[s_["id"]] = sorted(real2[s_["id"]])
             for s in c["shares"]:
                 e, g = s["id"] in exp2, s["id"] in real2
                 if e == g and (not e or exp2[s["id"]] == real2[s["id"]]):
